@@ -79,6 +79,9 @@ def _lenakeyerr(v):
 
 LEAVES = {
     "s:a": "a", "s:a.b": "a.b", "s:a.b.c": "a.b.c", "s:b": "b", "s:a.b.2": "a.b.2", "s:a.x.c": "a.x.c", "s:": "",
+    # the value addressed by the last-but-one component is falsy / not a string
+    "s:a.0": "a.0", "s:b.0": "b.0", "s:a.b.0": "a.b.0", "s:a.False": "a.False", "s:a.None": "a.None", "s:a.": "a.",
+    "s:a.{}": "a.{}", "s:a.b.1": "a.b.1",
     "c:int": int, "c:str": str, "c:bool": bool, "c:tuple": tuple, "c:Base": Base, "c:Derived": Derived,
     "f:true": lambda v: True, "f:false": lambda v: False, "f:yes": lambda v: "yes", "f:zero": lambda v: 0,
     "f:empty": lambda v: [], "f:obj": CallableObj(), "f:haspair": ref_is_pair,
@@ -89,8 +92,9 @@ VALUES = [
     1, 0, "s", "", True, 2.5, None, (1, 2), Derived(), Base(),
     (1, {}), (0, {"a": 1}), ("s", {"a": {"b": 2}}), (2.5, {"a": "b"}), ((1, 2), {"a": {"b": {"c": 3}}}),
     (Derived(), {"b": 1}), (1, {"a": "xb"}), (True, {"a": {"b": 1}, "b": 0}), ("", {"a": 0}), (None, {"a": {}}),
+    (1, {"a": False}), (1, {"a": None}), (1, {"a": ""}), (1, {"a": {"b": 0}}), (1, {"a": 0.0, "b": ""}),
 ]
-QUICK_VALUES = [0, 4, 8, 10, 11, 12, 13, 16]          # indices into VALUES
+QUICK_VALUES = [0, 4, 8, 10, 11, 12, 13, 16, 17, 18, 20, 21, 23]          # indices into VALUES
 
 PREDS = {
     "p:true": lambda sub: True, "p:false": lambda sub: False, "p:isdict": lambda sub: isinstance(sub, dict),
@@ -137,10 +141,26 @@ def ref_sub(ctx, keys):
     return cur
 
 
+def ref_contains(d, s):
+    """lena.context.contains as documented: dots mean nested sub-dictionaries, a string without dots a key of d; when
+    the last-but-one component reaches a value that is not a dictionary, its str() is compared with the last component"""
+    levels = s.split(".")
+    if len(levels) < 2:
+        return s in d
+    cur = d
+    for key in levels[:-1]:
+        if not isinstance(cur, dict) or key not in cur:
+            return False
+        cur = cur[key]
+    if isinstance(cur, dict):
+        return levels[-1] in cur
+    return str(cur) == levels[-1]
+
+
 def eval_leaf(leaf, v, roe):
     try:
         if isinstance(leaf, str):
-            r = lena.context.contains(ref_context(v), leaf)     # "a string tests the context with contains"
+            r = ref_contains(ref_context(v), leaf)              # "a string tests the context with contains"
         elif isinstance(leaf, type):
             r = isinstance(ref_data(v), leaf)                   # "a class tests the type of the data"
         else:
@@ -907,8 +927,8 @@ def body(R):
     vals_idx = list(range(len(VALUES))) if th else QUICK_VALUES
 
     # ---- 1. selectors, exhaustive to depth 2
-    leaves2 = (["s:a.b", "s:a", "c:int", "f:yes", "f:zero", "r:boom1", "r:keyerr"] if th else
-               ["s:a.b", "c:int", "f:yes", "f:zero", "r:boom1"])
+    leaves2 = (["s:a.b", "s:a", "s:a.0", "s:a.b.0", "c:int", "f:yes", "f:zero", "r:boom1", "r:keyerr"] if th else
+               ["s:a.b", "s:a.0", "c:int", "f:yes", "f:zero", "r:boom1"])
     terms2 = enum_terms(leaves2, 2, 2)
     R.scope("Selector/And/Or/Not vs eval_spec, depth <= 2",
             "all %d specifications of nesting <= 2 (raw lists and tuples of length 0..2, Not) over the leaves %s; "
